@@ -229,6 +229,15 @@ def _battery(ctx, RN, r, cid, closed, relation, full, via_grid):
                            lat_seq=np.absolute(np.linspace(-90, 90, n)),
                            lon_seq=np.linspace(-180, 180, n),
                            silence_level=3)
+            rj = ctx.rng("junk", cid)
+            if rj.random() < 0.5 and not cplx:
+                # a resistance value for every pair (e.g. a distance
+                # matrix): the links are those of the given adjacency
+                full = rj.uniform(0.5, 3.0, x.shape)
+                full = np.triu(full, 1)
+                full = full + full.T
+                x = np.where(adj != 0, x, full)
+                ctx.count("resistances_defined_on_non_links")
             return RN(x, grid=grid, adjacency=adj, silence_level=3)
     else:
         def build(x):
